@@ -57,23 +57,36 @@ pub(crate) struct SqPackHeader {
     sha1_hash: [u8; 20],
 }
 
+/// Upper bound for the declared size of one decompressed block. The game writes blocks of at most
+/// 16000 bytes; anything beyond this limit (1 MiB) is a corrupt header.
+const MAX_DECOMPRESSED_BLOCK_SIZE: usize = 1 << 20;
+
 pub(crate) fn read_data_block<T: Read + Seek>(
     mut buf: T,
     starting_position: u64,
 ) -> Option<Vec<u8>> {
     buf.seek(SeekFrom::Start(starting_position)).ok()?;
 
-    let block_header = BlockHeader::read(&mut buf).unwrap();
+    let block_header = BlockHeader::read(&mut buf).ok()?;
 
     match block_header.compression {
         CompressionMode::Compressed {
             compressed_length,
             decompressed_length,
         } => {
-            let mut compressed_data: Vec<u8> = vec![0; compressed_length as usize];
+            // negative lengths are corrupt; a compressed block is always shorter than 32000 bytes
+            let compressed_length = usize::try_from(compressed_length).ok()?;
+            let decompressed_length = usize::try_from(decompressed_length).ok()?;
+
+            // refuse absurd sizes before allocating the output
+            if decompressed_length > MAX_DECOMPRESSED_BLOCK_SIZE {
+                return None;
+            }
+
+            let mut compressed_data: Vec<u8> = vec![0; compressed_length];
             buf.read_exact(&mut compressed_data).ok()?;
 
-            let mut decompressed_data: Vec<u8> = vec![0; decompressed_length as usize];
+            let mut decompressed_data: Vec<u8> = vec![0; decompressed_length];
             if !no_header_decompress(&mut compressed_data, &mut decompressed_data) {
                 return None;
             }
@@ -81,8 +94,14 @@ pub(crate) fn read_data_block<T: Read + Seek>(
             Some(decompressed_data)
         }
         CompressionMode::Uncompressed { file_size } => {
-            let mut local_data: Vec<u8> = vec![0; file_size as usize];
-            buf.read_exact(&mut local_data).ok()?;
+            let file_size = u64::try_from(file_size).ok()?;
+
+            // read what is there instead of trusting the header with an up-front allocation
+            let mut local_data: Vec<u8> = Vec::new();
+            buf.take(file_size).read_to_end(&mut local_data).ok()?;
+            if local_data.len() as u64 != file_size {
+                return None;
+            }
 
             Some(local_data)
         }
